@@ -601,6 +601,45 @@ def _eye_build(n, sps):
         np.random.set_state(st)
 
 
+def _slots(rs, nsym, M, broken):
+    """PPM slot pattern of `nsym` symbols: valid codewords; with `broken` some symbols have no ON slot and some have several
+    (so that both repair branches of HDD run)"""
+    import numpy as np
+    out = np.zeros(nsym * M, dtype=int)
+    for i in range(nsym):
+        out[i * M + rs.randint(M)] = 1
+    if broken:
+        for i in range(0, nsym, 3):
+            out[i * M:(i + 1) * M] = 0                       # empty symbol
+        for i in range(1, nsym, 3):
+            out[i * M:(i + 1) * M] = 0
+            out[i * M + np.array(rs.choice(M, 2, replace=False))] = 1   # two ON slots
+        out[(nsym - 1) * M:] = 1                               # all ON
+    return out
+
+
+def _as(kind, arr):
+    """the same bits as a str / list / tuple / ndarray / bool ndarray / binary_sequence OBJECT"""
+    import numpy as np
+    from opticomlib.typing import binary_sequence
+    arr = np.asarray(arr).astype(int)
+    if kind == "str":
+        return "".join(map(str, arr))
+    if kind == "list":
+        return [int(x) for x in arr]
+    if kind == "tuple":
+        return tuple(int(x) for x in arr)
+    if kind == "ndarray":
+        return arr.copy()
+    if kind == "bool":
+        return arr.astype(bool)
+    if kind == "uint8":
+        return arr.astype(np.uint8)
+    if kind == "binseq":
+        return binary_sequence(arr)
+    raise ValueError(kind)
+
+
 def _suite():
     """name -> builder(p) returning (fn, args, kwargs); p = {seed, n (slots), sps}.  Every builder creates FRESH argument objects
     from a private RandomState so that two builds with the same p give equal inputs."""
@@ -657,6 +696,50 @@ def _suite():
     S["ppm.DSP.hard"] = lambda p: (P.DSP, (_esig(rs(p), 64 * p["sps"], p.get('noise', True)),), {"M": 4, "decision": "hard", "threshold": 0.5})
     S["ppm.DSP.soft"] = lambda p: (P.DSP, (_esig(rs(p), 64 * p["sps"], p.get('noise', True)),), {"M": 4, "decision": "soft"})
     S["ppm.theory_BER"] = lambda p: (P.theory_BER, (np.array([1.0, 2.0]), 0.1, 0.2), {"M": 4, "decision": "hard"})
+    # ---- the codec / DSP entry points under every container kind they accept (objects as well as raw data)
+    for kind in ("str", "list", "tuple", "ndarray", "bool", "uint8", "binseq"):
+        for broken in (False, True):
+            S[f"ppm.HDD.{kind}.{'repair' if broken else 'valid'}"] = \
+                (lambda kind, broken: lambda p: (P.HDD, (_as(kind, _slots(rs(p), 9, 4, broken)),), {"M": 4}))(kind, broken)
+        S[f"PPM_ENCODER.{kind}"] = (lambda kind: lambda p: (P.PPM_ENCODER, (_as(kind, _bits(rs(p), 12)),), {"M": 8}))(kind)
+        S[f"PPM_DECODER.{kind}"] = (lambda kind: lambda p: (P.PPM_DECODER, (_as(kind, _slots(rs(p), 6, 8, False)),), {"M": 8}))(kind)
+        S[f"DAC.{kind}"] = (lambda kind: lambda p: (D.DAC, (_as(kind, _bits(rs(p), p["n"])),), {"Vout": -1.5, "bias": 0.25,
+                                                                                             "pulse_shape": "rz"}))(kind)
+        S[f"ppm.BER.counter.{kind}"] = (lambda kind: lambda p: (P.BER_analizer, ("counter",),
+                                        {"Tx": _as(kind, _bits(rs(p), 24)), "Rx": _as(kind, _bits(np.random.RandomState(p["seed"] + 1), 20))}))(kind)
+        S[f"ook.BER.counter.{kind}"] = (lambda kind: lambda p: (O.BER_analizer, ("counter",),
+                                        {"Tx": _as(kind, _bits(rs(p), 24)), "Rx": _as(kind, _bits(np.random.RandomState(p["seed"] + 1), 20))}))(kind)
+    S["ppm.SDD.ndarray"] = lambda p: (P.SDD, (rs(p).rand(4 * 6 * p["sps"]),), {"M": 4})
+    S["ppm.SDD.list"] = lambda p: (P.SDD, (list(rs(p).rand(4 * 6 * p["sps"])),), {"M": 4})
+    S["ppm.DSP.hard.ndarray"] = lambda p: (P.DSP, (rs(p).rand(16 * p["sps"]),), {"M": 4, "decision": "hard", "threshold": 0.5})
+    S["ppm.DSP.soft.list"] = lambda p: (P.DSP, (list(rs(p).rand(16 * p["sps"])),), {"M": 4, "decision": "soft"})
+    S["ppm.BER.estimator"] = lambda p: (P.BER_analizer, ("estimator",), {"eye_obj": _eye(rs(p), 64, p["sps"]), "M": 4, "decision": "hard"})
+    S["ook.BER.estimator"] = lambda p: (O.BER_analizer, ("estimator",), {"eye_obj": _eye(rs(p), 64, p["sps"])})
+    S["MZM.list"] = lambda p: (D.MZM, (_osig(rs(p), N(p), 1, p.get('noise', True)), list(rs(p).rand(N(p)))), {"bias": 1.0})
+    S["GET_EYE.ndarray"] = lambda p: (D.GET_EYE, (np.kron(np.tile([0, 1, 1, 0, 1, 0, 0, 1], 8), np.ones(p["sps"]))
+                                                  + 0.05 * rs(p).randn(64 * p["sps"]),), {"nslots": 64})
+    # ---- operators and methods of the containers themselves (binary_sequence / electrical_signal / optical_signal ops)
+    from opticomlib.typing import binary_sequence as BS
+    S["binseq.add.obj"] = lambda p: (BS.__add__, (_as("binseq", _bits(rs(p), 9)), _as("binseq", _bits(rs(p), 5))), {})
+    S["binseq.add.list"] = lambda p: (BS.__add__, (_as("binseq", _bits(rs(p), 9)), _as("list", _bits(rs(p), 5))), {})
+    S["binseq.radd.str"] = lambda p: (BS.__radd__, (_as("binseq", _bits(rs(p), 9)), "0110"), {})
+    S["binseq.invert"] = lambda p: (BS.__invert__, (_as("binseq", _bits(rs(p), 9)),), {})
+    S["binseq.getitem"] = lambda p: (BS.__getitem__, (_as("binseq", _bits(rs(p), 9)), slice(1, 7, 2)), {})
+    S["binseq.eq"] = lambda p: (BS.__eq__, (_as("binseq", _bits(rs(p), 9)), _as("ndarray", _bits(rs(p), 9))), {})
+    import operator
+    for opn in ("add", "sub", "mul"):
+        S[f"esig.{opn}.obj"] = (lambda opn: lambda p: (getattr(operator, opn), (_esig(rs(p), 12, p.get('noise', True)),
+                                                                              _esig(np.random.RandomState(p["seed"] + 1), 12)), {}))(opn)
+        S[f"esig.{opn}.ndarray"] = (lambda opn: lambda p: (getattr(operator, opn), (_esig(rs(p), 12, p.get('noise', True)), rs(p).rand(12)), {}))(opn)
+        S[f"osig.{opn}.obj"] = (lambda opn: lambda p: (getattr(operator, opn), (_osig(rs(p), 12, 2, p.get('noise', True)),
+                                                                              _osig(np.random.RandomState(p["seed"] + 1), 12, 2)), {}))(opn)
+    S["esig.getitem"] = lambda p: (operator.getitem, (_esig(rs(p), 12, p.get('noise', True)), slice(2, 11, 3)), {})
+    S["osig.getitem"] = lambda p: (operator.getitem, (_osig(rs(p), 12, 2, p.get('noise', True)), slice(2, 11, 3)), {})
+    S["esig.fft"] = lambda p: (lambda x: x("w", shift=True), (_esig(rs(p), 12, p.get('noise', True)),), {})
+    S["osig.ifft"] = lambda p: (lambda x: x("t"), (_osig(rs(p), 12, 2, p.get('noise', True)),), {})
+    S["esig.gt"] = lambda p: (operator.gt, (_esig(rs(p), 12, p.get('noise', True)), 0.5), {})
+    S["esig.copy"] = lambda p: (lambda x: x.copy(), (_esig(rs(p), 12, p.get('noise', True)),), {})
+    S["esig.abs.power.phase"] = lambda p: (lambda x: (x.abs(), x.power(), x.phase()), (_esig(rs(p), 12, p.get('noise', True), True),), {})
     # ---- ook
     S["ook.THRESHOLD_EST"] = lambda p: (O.THRESHOLD_EST, (_eye(rs(p), 64, p["sps"]),), {})
     S["ook.DSP"] = lambda p: (O.DSP, (__import__("opticomlib.typing", fromlist=["x"]).electrical_signal(
@@ -695,8 +778,16 @@ SUITE_NAMES = ["PRBS", "PRBS.ret", "DAC.nrz.ndarray", "DAC.rz.binseq", "DAC.gaus
                "ppm.DSP.soft", "ppm.theory_BER", "ook.THRESHOLD_EST", "ook.DSP", "ook.theory_BER", "dec2bin", "str2array", "db", "dbm",
                "idb", "idbm", "gaus", "Q", "phase", "tau_g", "dispersion", "rcos", "si", "norm", "nearest", "p_ase",
                "average_voltages", "noise_variances", "optimum_threshold", "utils.theory_BER", "shortest_int"]
+_KINDS = ("str", "list", "tuple", "ndarray", "bool", "uint8", "binseq")
+SUITE_NAMES += [f"ppm.HDD.{k}.{b}" for k in _KINDS for b in ("valid", "repair")]
+SUITE_NAMES += [f"{f}.{k}" for k in _KINDS for f in ("PPM_ENCODER", "PPM_DECODER", "DAC", "ppm.BER.counter", "ook.BER.counter")]
+SUITE_NAMES += ["ppm.SDD.ndarray", "ppm.SDD.list", "ppm.DSP.hard.ndarray", "ppm.DSP.soft.list", "ppm.BER.estimator", "ook.BER.estimator",
+                "MZM.list", "GET_EYE.ndarray", "binseq.add.obj", "binseq.add.list", "binseq.radd.str", "binseq.invert",
+                "binseq.getitem", "binseq.eq", "esig.getitem", "osig.getitem", "esig.fft", "osig.ifft", "esig.gt", "esig.copy",
+                "esig.abs.power.phase"]
+SUITE_NAMES += [f"{c}.{o}.{k}" for o in ("add", "sub", "mul") for c, k in (("esig", "obj"), ("esig", "ndarray"), ("osig", "obj"))]
 # functions whose single call is slow: used less often
-SLOW = {"GET_EYE", "FBG", "ppm.THRESHOLD_EST", "ook.THRESHOLD_EST", "ook.DSP", "ppm.DSP.hard", "ppm.DSP.soft", "FIBER.nonlinear"}
+SLOW = {"GET_EYE", "GET_EYE.ndarray", "ppm.BER.estimator", "ook.BER.estimator", "FBG", "ppm.THRESHOLD_EST", "ook.THRESHOLD_EST", "ook.DSP", "ppm.DSP.hard", "ppm.DSP.soft", "FIBER.nonlinear"}
 THOROUGH_ONLY = {"ook.DSP"}      # one call takes ~6 s (GET_EYE with sps_resamp=128 on 8192 slots)
 GV_CONFS = [{"sps": 8, "R": 1e9, "N": 16}, {"sps": 16, "R": 1e9}, {"sps": 9, "R": 2.5e9, "N": 16}, {"sps": 8, "R": 10e9, "N": 16, "alpha": 0.5},
             {"sps": 1, "R": 16e9, "N": 128}]
